@@ -272,7 +272,10 @@ func flexLayout(context *layoutContext, box_ Box, bottomSpace pr.Float, skipStac
 
 		child.Style = child.Style.Copy()
 		var flexBasis pr.DimOrS
-		if child.Style.GetFlexBasis().S == "content" {
+		// (a percentage of an unbounded main axis is no length: flex-basis behaves
+		// as content and the main size as auto)
+		indefinite := func(v pr.DimOrS) bool { return v.Unit == pr.Perc && availableMainSpace == pr.Inf }
+		if fb := child.Style.GetFlexBasis(); fb.S == "content" || indefinite(fb) {
 			flexBasis = pr.SToV("content")
 			child.FlexBasis = flexBasis
 		} else {
@@ -286,6 +289,9 @@ func flexLayout(context *layoutContext, box_ Box, bottomSpace pr.Float, skipStac
 		target, val := &child.Height, child.Style.GetHeight()
 		if axis == pr.PWidth {
 			target, val = &child.Width, child.Style.GetWidth()
+		}
+		if indefinite(val) {
+			val = pr.SToV("auto")
 		}
 		*target = resolveOnePercentage(val, axis, availableMainSpace, 0)
 		if flexBasis.S == "auto" {
@@ -463,7 +469,9 @@ func flexLayout(context *layoutContext, box_ Box, bottomSpace pr.Float, skipStac
 			} else {
 				child.FlexFactor = child.Style.GetFlexShrink()
 			}
-			if child.FlexFactor == 0 ||
+			// (an unbounded main axis has no free space to share: the items keep
+			// their hypothetical size and the container wraps them)
+			if child.FlexFactor == 0 || availableMainSpace == pr.Inf ||
 				(flexFactorType == "grow" && child.FlexBaseSize > child.HypotheticalMainSize) ||
 				(flexFactorType == "shrink" && child.FlexBaseSize < child.HypotheticalMainSize) {
 				child.TargetMainSize = child.HypotheticalMainSize
